@@ -313,6 +313,21 @@ chk("C22", "model_checking",
     "DESIGN.md section 4, C22")
 
 
+chk("C23", "model_checking",
+    "spec/Repl.tla defines RunLine over the reference semantics' top-level state with the outcome classes parse / "
+    "compile (state unchanged) / ok / rterror (what ran stays); TLC model-checks RejectedLineHasNoEffect and "
+    "LikeOneProgram over all histories of up to 4 lines of a 10-line library (11 k states). Conformance: random "
+    "sessions of 1-12 lines (definitions, redefinitions of existing names, function definitions, uses, assignments, "
+    "loops, unparsable lines, compiler-rejected lines incl. ones that would redefine an existing name, lines failing "
+    "at run time after a side effect, blank and backslash-continued lines) are fed to the real run_prompt loop of the "
+    "hooked binary (scripted line source); after every line a probe prints the observation array; "
+    "spec/ReplTrace.tla validates each line's outcome class and the state after it.",
+    "The REPL's own echo of a line's value is not compared (unspecified); observations are integers; a redefinition "
+    "whose initialiser mentions the redefined name is not generated (unspecified).",
+    "TLA+ state machine over the reference semantics model-checked by TLC; recorded REPL sessions trace-validated by TLC",
+    "DESIGN.md section 4, C23")
+
+
 def main():
     props = [json.loads(l)["id"] for l in open(os.path.join(VERIF, "properties.jsonl"))]
     na = [{"property_id": p, "reason": NOT_APPLICABLE.get(p, "check not built yet in this round (planned, see DESIGN.md section 8)")}
